@@ -11,6 +11,8 @@ CONSTANTS
   MaxHolds = 1
   MaxNoops = 1
   WithSettle = TRUE
+  MaxErrs = 1
+  FaultsAt = "any"
   PauseAtomic = TRUE
   StartRollback = TRUE
   EntityGC = TRUE
@@ -19,3 +21,5 @@ CONSTANTS
   JoinedStopped = TRUE
   LateRegisterChecked = TRUE
   BarrierExits = TRUE
+  IntPauseAtomic = TRUE
+  GaugeDeleteFirst = TRUE
